@@ -33,9 +33,9 @@ ASSUMPTIONS = [
     "the public builders.mle only",
     "optimality / self-consistency / agreement are asserted only when the run did not emit a ConvergenceWarning "
     "(the statement allows 'a model or a convergence warning'); a warned model must still be finite, row-stochastic and reversible",
-    "budget guard: matrices on which the iteration needs > 4000 sweeps (measured with the compiled estimator) are run "
-    "through the pure-Python implementation with max_iter=2000 (documented parameter) and are skipped for builders.mle, "
-    "whose cap of 1e5 Python sweeps cannot be changed by the caller",
+    "budget: the pure-Python implementation is called directly with max_iter=3000 (documented parameter; 1e5 Python "
+    "sweeps take 10-30 s); matrices on which it does not stop within 3000 sweeps are skipped for builders.mle, whose cap "
+    "cannot be changed by the caller (about 1 % of the cases, counted as skipped)",
     "max_iter >= 1 (max_iter=0 leaves the loop variable undefined; not a documented use)",
 ]
 SHARDS = {"quick": 4, "thorough": 16}
@@ -72,15 +72,22 @@ def mle_case(draw, n_max=6, with_container=False, with_competitor=False, with_ma
 
 # --------------------------------------------------------------------------------------------------
 
+PY_SWEEPS = 3000      # explicit max_iter for direct calls of the pure-Python implementation (documented parameter)
+
+
 def affordable(B):
-    """Budget guard only: does the iteration (compiled twin, ln-equivalent tolerance) stop within 4000 sweeps?"""
+    """Budget guard only (never a verdict) for builders.mle, whose cap of 1e5 pure-Python sweeps (10-30 s) cannot be
+    set by the caller: does the same pure-Python iteration stop within PY_SWEEPS sweeps?  Any failure other than
+    non-convergence counts as 'affordable', so that the real call reports it."""
     try:
         with warnings.catch_warnings(record=True) as w:
             warnings.simplefilter("always")
-            _mle_prinz_dense(np.ascontiguousarray(B, dtype=np.float64), tol=1e-10 / 2.303, max_iter=4000)
-        return not any("converge" in str(x.message) for x in w)
+            builders._prinz_mle_py(np.array(B, dtype=np.float64), max_iter=PY_SWEEPS)
+        return not any("converge" in str(x.message).lower() for x in w)
+    except TypeError:
+        return False       # unrepaired tree: the non-convergence warning itself raises TypeError
     except Exception:
-        return False
+        return True
 
 
 def run_impl(which, B, **kw):
@@ -99,10 +106,10 @@ def run_impl(which, B, **kw):
 
 
 def both_impls(B):
-    """Run both implementations under the budget guard. -> dict name -> (T, pi, warned), list of class labels."""
-    if affordable(B):
-        return {"py": run_impl("py", B), "pyx": run_impl("pyx", B)}, ["budget=default"]
-    return {"py": run_impl("py", B, max_iter=2000), "pyx": run_impl("pyx", B)}, ["budget=py_capped_2000"]
+    """Run both implementations (Python one with max_iter=PY_SWEEPS, compiled one with its defaults).
+    -> dict name -> (T, pi, warned), list of class labels."""
+    res = {"py": run_impl("py", B, max_iter=PY_SWEEPS), "pyx": run_impl("pyx", B)}
+    return res, ["py_stopped_within_%d_sweeps=%s" % (PY_SWEEPS, not res["py"][2])]
 
 
 def check_model(B, T, pi, who):
@@ -171,7 +178,7 @@ def run_terminates_builder(case):
         require(np.all(np.isfinite(T)) and np.all(T >= 0) and np.max(np.abs(T.sum(axis=1) - 1)) <= TOL_ROW,
                 "builders.mle: T is not row-stochastic", T=T.tolist())
     # the public builder must give the numbers of the implementation it wraps, whatever the container
-    Tpy, _, _ = run_impl("py", B)
+    Tpy, _, _ = run_impl("py", B, max_iter=PY_SWEEPS)
     require(np.max(np.abs(T - Tpy)) <= 1e-12, "builders.mle(container) differs from the estimator on the dense counts",
             got=T.tolist(), want=Tpy.tolist())
     warned = any("converge" in str(x.message).lower() for x in w)
